@@ -4,6 +4,11 @@ Each contract symbolically executes the calling Python method and, at the kernel
 shape / length / index-range / argument-consistency `requires` (see contracts/kernels.py) for the actual arguments.
 Kernel requirements that the method cannot establish from what it sees are NOT asserted; they are listed as
 `# assumed:` next to the contract.
+
+NOTE on counting obligations: an assertion whose spec expression leaves the encodable subset (e.g. `shape(argK,0)` of
+an argument that became opaque) is not reported as undecided - the engine drops it together with the assertions after
+it (pvc/symex.py: `ev()` swallows Undecidable in py_mode).  The expected number of obligations of every contract is
+therefore stated in its comment (`#obl`); fewer obligations than that means the contract lost assertions.
 """
 from contracts.kernels import K, _uses, REG  # noqa: F401
 
@@ -13,21 +18,26 @@ _SUR = "timeseries/surrogates.py"
 _VG = "timeseries/visibility_graph.py"
 
 # ============================================================================ CrossRecurrencePlot.*_distance_matrix
-# kernel(ntime_x, ntime_y, dim, x_embedded, y_embedded)
-# region requires: both trajectories are embedded with the same `dim` in CrossRecurrencePlot.__init__
-#   (self.x_embedded = self.embed_time_series(x, dim, tau); self.y_embedded = self.embed_time_series(y, dim, tau) - the
-#   second axis of both results is `dim`, see RecurrencePlot.embed_time_series[uses] below)
+# kernel(ntime_x, ntime_y, dim, x_embedded, y_embedded)                                                  #obl 5 each
+# inputs: both attributes are 2-d float64 by construction (__init__ reshapes x, y to (n, -1); the property setters
+#   store to_cy(embedding, DFIELD)).
+# assumed: shape(y_embedded,1)==dim.  `dim` is read from x_embedded only.  With `dim`/`tau` keywords both trajectories
+#   are embedded with the same dim (__init__), but without them x_embedded = x and y_embedded = y as given by the
+#   caller: nothing in the class checks that x and y have the same number of columns.
 for _m in ("manhattan", "euclidean", "supremum"):
     _uses(f"CrossRecurrencePlot.{_m}_distance_matrix[uses]", _CRP, f"CrossRecurrencePlot.{_m}_distance_matrix", ("C07", "C20"),
-          {"self.x_embedded": "arr:float64:2", "self.y_embedded": "arr:float64:2"},
-          ["shape(self.x_embedded,1)==shape(self.y_embedded,1)"],
+          {"self.x_embedded": "arr:float64:2", "self.y_embedded": "arr:float64:2"}, [],
           {f"_{_m}_distance_matrix_crp": ["arg0>=0 and arg1>=0 and arg2>=0",
                                           "shape(arg3,0)==arg0 and shape(arg3,1)==arg2",
-                                          "shape(arg4,0)==arg1 and shape(arg4,1)==arg2",
+                                          "shape(arg4,0)==arg1",
                                           "same_array(arg3, self.x_embedded) and same_array(arg4, self.y_embedded)"]})
 
 # ============================================================================ RecurrencePlot.embed_time_series (static)
-# kernel(n_time, dim, tau, time_series, embedding)
+# kernel(n_time, dim, tau, time_series, embedding)                                                       #obl 5
+# (dim-1)*tau<=n_time holds at the call because np.empty((n_time-(dim-1)*tau, dim)) raises ValueError otherwise.
+# assumed: dim>=1 (np.empty only rejects dim<0), tau>=0, (dim-1)*tau<=INT32_MAX - `dim`, `tau` are caller-supplied.
+# not covered: the path of a 2-d (n,1) input through `time_series.squeeze(axis=-1)` (the form RecurrencePlot.__init__
+#   passes) - the engine reports "array variable bound to different arrays at join"; the input is typed 1-d here.
 _uses("RecurrencePlot.embed_time_series[uses]", _RP, "RecurrencePlot.embed_time_series", ("C07", "C20"),
       {"time_series": "arr:float64:1", "dim": "int", "tau": "int"}, [],
       {"_embed_time_series": ["arg0>=0", "shape(arg3,0)==arg0",
@@ -35,13 +45,55 @@ _uses("RecurrencePlot.embed_time_series[uses]", _RP, "RecurrencePlot.embed_time_
                               "(arg1-1)*arg2<=arg0"]})
 
 # ============================================================================ RecurrencePlot.white_vertline_dist
-# kernel(n_time, hist, R)
+# kernel(n_time, hist, R)                                                                                #obl 5
+# assumed: shape(R,0)==n_time and shape(R,1)==n_time.  R is whatever self.recurrence_matrix() returns; that self.R is
+#   an N x N matrix for the current self.N is a class invariant spread over the threshold setters (and self.N follows
+#   the embedding setter), not something this method sees.  Under sparse_rqa recurrence_matrix() returns None, which
+#   the method passes on unchecked.
 _uses("RecurrencePlot.white_vertline_dist[uses]", _RP, "RecurrencePlot.white_vertline_dist", ("C08", "C20"),
       {"self.N": "int"}, [],
       {"_white_vertline_dist": ["arg0==self.N", "arg0>=0", "shape(arg1,0)==arg0", "all(arg1[q]==0 for q in range(arg0))"]})
 
+# ============================================================================ RecurrencePlot.set_adaptive_neighborhood_size
+# kernel(n_time, adaptive_neighborhood_size, sorted_neighbors, order, recurrence)
+# assumed contracts of opaque calls (call_facts):
+#   RecurrencePlot.distance_matrix: square float64 matrix (ensures of the _*_distance_matrix_rp kernels);
+#   ndarray.argsort(axis=1): same shape, every entry an index into axis 1 (NumPy semantics);
+#   np.arange(n, dtype=NODE): length max(n,0), element a == a (NumPy semantics).
+# assumed: adaptive_neighborhood_size>=0 (caller-supplied).
+_ANS_FACTS = {
+    "RecurrencePlot.distance_matrix": {"returns": "arr:float64:2", "ensures": ["shape(result,0)==shape(result,1)"]},
+    "distance.argsort": {"returns": "arr:int64:2",
+                         "ensures": ["shape(result,0)==shape(distance,0) and shape(result,1)==shape(distance,1)",
+                                     "all(0<=result[a,b] and result[a,b]<shape(distance,1) "
+                                     "for a in range(shape(distance,0)) for b in range(shape(distance,1)))"]},
+    "np.arange": {"returns": "arr:int32:1",
+                  "ensures": ["shape(result,0)==ite(arg0>0,arg0,0)", "all(result[a]==a for a in range(arg0))"]}}
+_ANS = ["arg0>=0", "shape(arg2,0)==arg0 and shape(arg2,1)==arg0", "shape(arg4,0)==arg0 and shape(arg4,1)==arg0",
+        "all(0<=arg2[a,b] and arg2[a,b]<arg0 for a in range(arg0) for b in range(arg0))",
+        "all(arg4[a,b]==arg4[b,a] and (arg4[a,b]==0 or arg4[a,b]==1) for a in range(arg0) for b in range(arg0))"]
+# (a) default processing order (order=None)                                                              #obl 8
+_c = K("RecurrencePlot.set_adaptive_neighborhood_size[uses]", _RP, lang="py", func="RecurrencePlot.set_adaptive_neighborhood_size",
+       props=("C07", "C20"), py_mode=True, inputs={"adaptive_neighborhood_size": "int"}, bind={"order": None}, requires=[],
+       call_facts=_ANS_FACTS, count_calls=("_set_adaptive_neighborhood_size",),
+       asserts={"call:_set_adaptive_neighborhood_size":
+                _ANS + ["shape(arg3,0)==arg0", "all(0<=arg3[a] and arg3[a]<arg0 for a in range(arg0))"]},
+       ensures=["count('_set_adaptive_neighborhood_size')==1"], checks=("shape",))
+_c.region = "body"
+# (b) caller-supplied order                                                                              #obl 7
+# assumed: shape(order,0)==n_time and all(0<=order[a]<n_time) - `order` is handed through (to_cy keeps the length:
+#   asserted) and never checked against the current distance matrix.
+_c = _uses("RecurrencePlot.set_adaptive_neighborhood_size[uses:order]", _RP, "RecurrencePlot.set_adaptive_neighborhood_size",
+           ("C07", "C20"), {"adaptive_neighborhood_size": "int", "order": "arr:int64:1"}, [],
+           {"_set_adaptive_neighborhood_size": _ANS + ["shape(arg3,0)==shape(order,0)"]})
+_c.call_facts = _ANS_FACTS
+
 # ============================================================================ RecurrencePlot.bootstrap_distance_matrix (static)
-# kernel(n_time, dim, embedding, distances, M)
+# kernel(n_time, dim, embedding, distances, M)                                                           #obl 10
+# M>=0 holds at the call because np.zeros(M) raises ValueError otherwise.  No kernel is called for an unknown metric
+# (total "<=1").  Which kernel serves which metric string is not asserted: string comparison of the opaque `metric`
+# is outside the spec language.
+# assumed: n_time>=1 (the kernel draws indices in [0,n_time); an empty embedding is not rejected by the method).
 _uses("RecurrencePlot.bootstrap_distance_matrix[uses]", _RP, "RecurrencePlot.bootstrap_distance_matrix", ("C07", "C20"),
       {"embedding": "arr:float64:2", "metric": "obj", "M": "int"}, [],
       {f"_bootstrap_distance_matrix_{_m}": ["arg1>=0 and arg4>=0", "shape(arg2,0)==arg0 and shape(arg2,1)==arg1",
@@ -49,7 +101,79 @@ _uses("RecurrencePlot.bootstrap_distance_matrix[uses]", _RP, "RecurrencePlot.boo
        for _m in ("manhattan", "euclidean", "supremum")}, total="<=1")
 
 # ============================================================================ RecurrencePlot.rejection_sampling (static)
-# kernel(dist, resampled_dist, N, M)
+# kernel(dist, resampled_dist, N, M)                                                                     #obl 3
+# assumed: N>=1 (an empty distribution is not rejected), M>=0 (caller-supplied, unchecked).
 _uses("RecurrencePlot.rejection_sampling[uses]", _RP, "RecurrencePlot.rejection_sampling", ("C08", "C20"),
       {"dist": "arr:int64:1", "M": "int"}, [],
       {"_rejection_sampling": ["shape(arg0,0)==arg2", "shape(arg1,0)==arg2"]})
+
+# ============================================================================ RecurrencePlot.twins
+# kernel(min_dist, N, R, nR, twins)                                                                      #obl 5
+# assumed contracts of opaque calls: self.recurrence_matrix() returns a 2-d int8 array (type only, no shape fact);
+#   R.sum(axis=0) has length shape(R,1) (NumPy semantics).
+# assumed: shape(R,0)==N and shape(R,1)==N (hence shape(nR,0)==N: only nR ~ R consistency is asserted) - same class
+#   invariant as for white_vertline_dist; N>=0; min_dist>=0 (caller-supplied); N<=INT32_MAX-2.
+_c = _uses("RecurrencePlot.twins[uses]", _RP, "RecurrencePlot.twins", ("C15", "C20"), {"self.N": "int", "min_dist": "int"}, [],
+           {"_twins_r": ["arg0==min_dist", "arg1==self.N", "shape(arg3,0)==shape(arg2,1)", "len(arg4)==0"]})
+_c.call_facts = {"self.recurrence_matrix": {"returns": "arr:int8:2", "ensures": []},
+                 "R.sum": {"returns": "arr:int64:1", "ensures": ["shape(result,0)==shape(R,1)"]}}
+
+# ============================================================================ RecurrencePlot.twin_surrogates
+# kernel(n_surrogates, N, dim, twins, embedding)                                                         #obl 6
+# region requires: shape(self.embedding,0)==self.N - the `embedding` property setter sets self.N = embedding.shape[0].
+# assumed: n_surrogates>=0 (caller-supplied); len(twins)>=N, item range and inner lengths of `twins` (the ensures of
+#   _twins_r reached through self.twins(min_dist): lists are not modelled in Python regions); N<=INT32_MAX-2.
+_uses("RecurrencePlot.twin_surrogates[uses]", _RP, "RecurrencePlot.twin_surrogates", ("C15", "C20"),
+      {"self.N": "int", "self.embedding": "arr:float64:2", "n_surrogates": "int", "min_dist": "int"},
+      ["shape(self.embedding,0)==self.N"],
+      {"_twin_surrogates_r": ["arg0==n_surrogates", "arg1==self.N and arg1>=0", "arg2>=0",
+                              "shape(arg4,0)==arg1 and shape(arg4,1)==arg2"],
+       "self.twins": ["arg0==min_dist"]}, total="==2")
+
+# ============================================================================ Surrogates.embed_time_series_array (static)
+# kernel(n, n_time, dimension, delay, time_series_array, embedding)                                      #obl 5
+# (dimension-1)*delay<=n_time holds at the call because np.empty raises ValueError on a negative extent.
+# assumed: dimension>=1 (np.empty only rejects dimension<0), delay>=0, (dimension-1)*delay<=INT32_MAX.
+_uses("Surrogates.embed_time_series_array[uses]", _SUR, "Surrogates.embed_time_series_array", ("C07", "C15", "C20"),
+      {"time_series_array": "arr:float64:2", "dimension": "int", "delay": "int", "silence_level": "int"}, [],
+      {"_embed_time_series_array": ["arg0>=0 and arg1>=0", "(arg2-1)*arg3<=arg1",
+                                    "shape(arg4,0)==arg0 and shape(arg4,1)==arg1",
+                                    "shape(arg5,0)==arg0 and shape(arg5,1)==arg1-(arg2-1)*arg3 and shape(arg5,2)==arg2"]})
+
+# ============================================================================ Surrogates.recurrence_plot (static)
+# kernel(n_time, dimension, threshold, embedding, R)                                                     #obl 5
+# all requires of the kernel are established (R is freshly allocated with np.ones)
+_uses("Surrogates.recurrence_plot[uses]", _SUR, "Surrogates.recurrence_plot", ("C15", "C07", "C20"),
+      {"embedding": "arr:float64:2", "threshold": "float", "silence_level": "int"}, [],
+      {"_recurrence_plot": ["arg0>=0 and arg1>=0", "shape(arg3,0)==arg0 and shape(arg3,1)==arg1",
+                            "shape(arg4,0)==arg0 and shape(arg4,1)==arg0",
+                            "all(arg4[a,b]==1 for a in range(arg0) for b in range(arg0))"]})
+
+# ============================================================================ Surrogates.twin_surrogates
+# kernel(n_surrogates, N, twins, original_data)                                                          #obl 4
+# region requires: (self.N, self.n_time) = self.original_data.shape in Surrogates.__init__.
+# MISMATCH with the kernel contract: the kernel requires shape(original_data,1)==N, but the method passes
+#   N := self.n_time-(dimension-1)*delay together with the un-embedded original_data, so what holds (and is asserted)
+#   is shape(original_data,1)==N+(dimension-1)*delay.  The kernel only reads original_data[i,k] with k<N, i.e. needs
+#   shape(original_data,1)>=N, which follows when (dimension-1)*delay>=0.
+# assumed: (dimension-1)*delay>=0 and N>=0 (caller-supplied, checked only inside embed_time_series_array's np.empty);
+#   all facts about `twins` (ensures of _twins_s reached through self.twins); N<=INT32_MAX-2.
+_uses("Surrogates.twin_surrogates[uses]", _SUR, "Surrogates.twin_surrogates", ("C15", "C20"),
+      {"self.original_data": "arr:float64:2", "self.N": "int", "self.n_time": "int", "dimension": "int", "delay": "int",
+       "threshold": "float", "min_dist": "int"},
+      ["shape(self.original_data,0)==self.N", "shape(self.original_data,1)==self.n_time"],
+      {"_twin_surrogates_s": ["arg0==self.N and arg0>=0", "shape(arg3,0)>=arg0", "shape(arg3,1)==arg1+(dimension-1)*delay"]})
+
+# ============================================================================ VisibilityGraph.retarded/advanced_local_clustering
+# kernel(N, A, norm, clustering)                                                                         #obl 7 each
+# region requires: the Network.adjacency setter rejects non-square input and sets self.N = N; the `adjacency` property
+#   returns sp_A.toarray() (int16 for N<32767).
+# assumed contract of self.retarded_degree() / self.advanced_degree(): a float64 vector of length self.N (both methods
+#   return np.zeros(self.N) filled in place).
+for _m in ("retarded", "advanced"):
+    _c = _uses(f"VisibilityGraph.{_m}_local_clustering[uses]", _VG, f"VisibilityGraph.{_m}_local_clustering", ("C14", "C20"),
+               {"self.N": "int", "self.adjacency": "arr:int16:2"},
+               ["self.N>=0", "shape(self.adjacency,0)==self.N and shape(self.adjacency,1)==self.N"],
+               {f"_{_m}_local_clustering": ["arg0==self.N", "shape(arg1,0)==arg0 and shape(arg1,1)==arg0", "shape(arg2,0)==arg0",
+                                            "shape(arg3,0)==arg0", "all(arg3[q]==0 for q in range(arg0))"]})
+    _c.call_facts = {f"self.{_m}_degree": {"returns": "arr:float64:1", "ensures": ["shape(result,0)==self.N"]}}
